@@ -21,6 +21,8 @@ package main
 //        quiesce — no flush: everything logged is written by the background flusher;
 //        panic   — entries are logged, then the goroutine panics under tars.CheckPanic (flush, os.Exit); in half of them
 //                  the stack dump file cannot be created (argv[0] under /proc/self) and a slow writer keeps entries pending;
+//                  in a third of them 2-4 guarded goroutines panic 0..25 ms apart while a backlog is being flushed;
+//        rawonly — like late, but only WriteLog / Trace calls precede the flush;
 //        runexit — entries are logged while tars.Run is running; SIGTERM; Run returns through its deferred FlushLogger;
 //        second  — flush, log again, flush again (FlushLogger is one-shot in the code: known finding).
 
@@ -76,6 +78,11 @@ type c20Scenario struct {
 	// panic mode: the child runs with an argv[0] under /proc/self, so debug.DumpStack cannot create its file
 	// "panic.<time>" next to the binary (as with a read-only or full installation directory)
 	NoDump bool `json:"nodump,omitempty"`
+	// panic mode: Panics >= 2 goroutines under `defer tars.CheckPanic()` panic GapMs milliseconds apart
+	Panics int `json:"panics,omitempty"`
+	GapMs  int `json:"gap_ms,omitempty"`
+	// only WriteLog / Trace calls (the paths that do not go through Writef)
+	Raw bool `json:"raw,omitempty"`
 }
 
 type c20ChildOut struct {
@@ -153,6 +160,9 @@ func c20Shape(sc *c20Scenario, g, n int) (w, api int, pad string) {
 	h ^= h >> 32
 	w = int(h % uint64(sc.W))
 	api = int((h >> 8) % 7)
+	if sc.Raw {
+		api = 5 + int((h>>8)%2)
+	}
 	pl := 0
 	if sc.Pad > 0 {
 		pl = int((h >> 16) % uint64(sc.Pad+1))
@@ -398,7 +408,7 @@ func c20RunScenario(sc c20Scenario) c20ChildOut {
 		}
 		flush()
 		wg.Wait()
-	case "late":
+	case "late", "rawonly":
 		for g := 0; g < sc.G; g++ {
 			wg.Add(1)
 			go logN(g, sc.N, false, &wg)
@@ -495,11 +505,22 @@ func c20RunScenario(sc c20Scenario) c20ChildOut {
 		wg.Wait()
 		env.rec(flushSlot, c20KFlushCall, 0, 0, 0)
 		fmt.Fprintf(env.file, "P %d\n", time.Now().UnixNano())
-		func() {
+		boom := func() {
 			defer tars.CheckPanic()
 			var m map[string]int
 			m["boom"] = 1 // nil map write
-		}()
+		}
+		if sc.Panics >= 2 { // several guarded goroutines panic within a short window; the process exits from one of them
+			for k := 0; k < sc.Panics; k++ {
+				go func(k int) {
+					time.Sleep(time.Duration(k*sc.GapMs) * time.Millisecond)
+					boom()
+				}(k)
+			}
+			time.Sleep(c20Wait)
+		} else {
+			boom()
+		}
 		out.Hook = "CheckPanic returned"
 		return out
 	}
@@ -903,6 +924,17 @@ func c20Gen(tier string, rng *rand.Rand) []c20Case {
 				sc.Delay = 50
 				sc.N = 3 + rng.Intn(12)
 			}
+			if rng.Intn(3) == 0 { // concurrent panics while the first one's flush is still draining a backlog
+				sc.Panics = 2 + rng.Intn(3)
+				sc.GapMs = []int{0, 1, 3, 10, 25}[rng.Intn(5)]
+				sc.Delay = 50
+				sc.N = 30/sc.G + rng.Intn(1+50/sc.G)
+			}
+		case "rawonly":
+			sc.G = 1 + rng.Intn(4)
+			sc.N = 1 + rng.Intn(20)
+			sc.Delay = []int{0, 20}[rng.Intn(2)]
+			sc.Raw = true
 		case "runexit":
 			sc.G = 1 + rng.Intn(6)
 			sc.N = 1 + rng.Intn(30)
@@ -914,13 +946,13 @@ func c20Gen(tier string, rng *rand.Rand) []c20Case {
 		}
 		return c20Case{Sc: sc, Expect: true}
 	}
-	counts := map[string]int{"forced": 200, "stress": 120, "late": 40, "fullq": 4, "quiesce": 12, "panic": 20, "second": 4, "runexit": 8}
+	counts := map[string]int{"forced": 200, "stress": 120, "late": 40, "fullq": 4, "quiesce": 12, "panic": 30, "second": 4, "runexit": 8, "rawonly": 4}
 	if tier == "thorough" {
-		counts = map[string]int{"forced": 3000, "stress": 2000, "late": 600, "fullq": 30, "quiesce": 150, "panic": 300, "second": 20, "runexit": 100}
+		counts = map[string]int{"forced": 3000, "stress": 2000, "late": 600, "fullq": 30, "quiesce": 150, "panic": 400, "second": 20, "runexit": 100, "rawonly": 40}
 	}
 	// the smallest forced case first: one goroutine, one entry inside the window
 	cs = append(cs, c20Case{Sc: c20Scenario{Mode: "forced", G: 1, N: 0, Last: 1, LastN: 1, W: 1, Procs: 2, Seed: 1}, Expect: true})
-	for _, m := range []string{"forced", "stress", "late", "fullq", "quiesce", "panic", "runexit", "second"} {
+	for _, m := range []string{"forced", "stress", "late", "rawonly", "fullq", "quiesce", "panic", "runexit", "second"} {
 		for i := 0; i < counts[m]; i++ {
 			cs = append(cs, mk(m))
 		}
@@ -1083,6 +1115,9 @@ func init() {
 				m := c.Sc.Mode
 				if c.Sc.NoDump {
 					m += "-nodump"
+				}
+				if c.Sc.Panics >= 2 {
+					m += fmt.Sprintf("-x%d-gap%d", c.Sc.Panics, c.Sc.GapMs)
 				}
 				return fmt.Sprintf("%s/G%d/W%d/l%d/%s/j%v/p%d/%s", m, c.Sc.G, c.Sc.W, c.Sc.Last*c.Sc.LastN, d, c.Sc.JSON, c.Sc.Procs, c20QBucket(c.QLen))
 			},
